@@ -9,7 +9,7 @@ from .. import progs, layout
 ID = "C11"
 LEAN_MODULES = ["PycModel.Properties.C11"]
 NAMESPACES = ["PycModel.C11", "PycModel.LexPos"]
-REQUIRED_THEOREMS = ["PycModel.C11.resolved_position_is_event_position", "PycModel.C11.lex_error_location", "PycModel.C11.token_coord_file", "PycModel.C11.coord_is_true_token_position", "PycModel.C11.declared_name_coordinate_is_its_token", "PycModel.C11.decl_typedecl_names_its_token"]
+REQUIRED_THEOREMS = ["PycModel.C11.resolved_position_is_event_position", "PycModel.C11.lex_error_location", "PycModel.C11.token_coord_file", "PycModel.C11.coord_is_true_token_position", "PycModel.C11.declared_name_coordinate_is_its_token", "PycModel.C11.decl_typedecl_names_its_token", "PycModel.C11.here_is_next_token", "PycModel.C11.invalid_expression_is_located"]
 LEVEL = "proof"
 TRUSTED = ["span membership (the token lies inside the construct) is not modelled; checked are: real token, right file/line, exact spelling for leaf nodes, coordinates present, and full agreement of every coordinate with the Lean parser model"]
 ASSUMPTIONS = []
@@ -95,6 +95,63 @@ def error_injection(args):
     return (v, None)
 
 
+MUT_TOKENS = [";", ")", "(", "}", "{", "]", "[", ",", "=", "+", "*", ":", "int", "x", "1", "case", "else", "typedef", ".", "->", "?", "return", "struct", "sizeof"]
+_LOC = re.compile(r"^(.*?):(\d+):(\d+): (.*)$", re.S)
+
+
+def syntax_error_location(args):
+    """a token-level mutant of an accepted program, laid out with recorded token positions: when it is
+    rejected, the location of the ParseError must be the start of a token of the input, in the file the
+    linemarkers establish; a message with a file name only is acceptable only at the end of the input
+    (decided from outside: then, and only then, appending a token changes the outcome)"""
+    text, seed = args
+    import random
+    rng = random.Random(seed)
+    us = layout.units(text)
+    if not us or len(us) > 400:
+        return None
+    op = rng.choice(["delete", "insert", "replace", "truncate", "insert", "replace"])
+    j = rng.randrange(len(us))
+    if op == "delete":
+        us2 = us[:j] + us[j + 1:]
+    elif op == "insert":
+        us2 = us[:j] + [("tok", rng.choice(MUT_TOKENS))] + us[j:]
+    elif op == "replace":
+        us2 = us[:j] + [("tok", rng.choice(MUT_TOKENS))] + us[j + 1:]
+    else:
+        us2 = us[:j]
+    if not us2:
+        return None
+    rec = []
+    v = layout.render(us2, rng.choice(["indent", "line", "markers", "single"]), rng, record=rec)
+    r = py_parse_obj(v, "f.c")
+    if r[0] != "PE":
+        return (v, None, False)
+    msg = r[1]
+    m = _LOC.match(msg)
+    if m and not m.group(1).count("\n"):
+        f, line, col = m.group(1), int(m.group(2)), int(m.group(3))
+        here = [(sp, ff if ff is not None else "f.c") for sp, l, c, ff in rec if (l, c) == (line, col)]
+        if not here:
+            return (v, "ParseError %r: no token of the input starts at that line and column" % msg[:70], True)
+        if not any(ff == f for _, ff in here):
+            return (v, "ParseError %r: the token there is in file %r" % (msg[:70], sorted({ff for _, ff in here})), True)
+        return (v, None, True)
+    # file name only: legitimate only when the parser ran out of input
+    files = {"f.c"} | {ff for _, _, _, ff in rec if ff is not None}
+    if not any(msg.startswith(ff + ": ") for ff in files):
+        return (v, "ParseError %r does not start with a location" % msg[:70], True)
+    at_end = False
+    for extra in (" ;", " x", " )", " }"):
+        r2 = py_parse_obj(v + extra, "f.c")
+        if r2[0] != "PE" or r2[1] != msg:
+            at_end = True
+            break
+    if not at_end:
+        return (v, "ParseError %r names no line and column although the parser had not reached the end of the input (appending tokens changes nothing)" % msg[:70], True)
+    return (v, None, True)
+
+
 def classify(replay):
     if replay.get("only_file_problems"):
         return "F-coord-file-lookahead"
@@ -105,7 +162,7 @@ def run(ctx):
     texts = [t for t in progs.pool(ctx, scale=0.4) if len(t) < 4000]
     rng = ctx.rng("variants")
     args = [(t, rng.randrange(1 << 30), cf) for t in texts for cf in (False, True)]
-    ctx.rule(progs.RULE + "; each re-laid out twice by a renderer that records (line, column, file) of every token: once with random blanks/newlines, once with linemarkers that change line and file between arbitrary tokens; every node coordinate must be a recorded token start in the right file, leaf nodes must spell that token, required classes must carry a coordinate; plus single illegal-character injections whose reported location must be exact; plus full coordinate agreement with the Lean model")
+    ctx.rule(progs.RULE + "; each re-laid out twice by a renderer that records (line, column, file) of every token: once with random blanks/newlines, once with linemarkers that change line and file between arbitrary tokens; every node coordinate must be a recorded token start in the right file, leaf nodes must spell that token, required classes must carry a coordinate; plus single illegal-character injections whose reported location must be exact; plus token-level mutants (delete / insert / replace / truncate) under recorded layouts: the location of a ParseError must be the start of a token of the input in the right file, a file-only location is accepted only at the end of the input; plus full coordinate agreement with the Lean model")
     res = pmap(check_variant, args)
     keys = set()
     variants = []
@@ -131,6 +188,30 @@ def run(ctx):
         if r[1] is not None:
             ctx.violation("illegal-character error location: %s in %r" % (r[1], r[0][:120]), {"kind": "errloc", "text": r[0]})
     ctx.count(n, nontrivial_n=n)
+    # locations of syntax errors
+    k = 3 if ctx.quick() else 30
+    sargs = [(t, rng.randrange(1 << 30)) for t in texts if len(t) < 1500 for _ in range(k)]
+    sres = pmap(syntax_error_location, sargs)
+    n = nrej = 0
+    for r in sres:
+        if r is None:
+            continue
+        n += 1
+        nrej += 1 if r[2] else 0
+        if r[1] is not None:
+            ctx.violation("syntax-error location: %s in %r" % (r[1], r[0][:120]), {"kind": "synloc", "text": r[0]})
+    ctx.extra["syntax_error_mutants"] = {"generated": n, "rejected": nrej}
+    ctx.count(n, nontrivial_n=nrej)
+    # ... and the whole message (location and text) of every rejected mutant is the Lean model's
+    if ctx.model_available:
+        rej = [r[0] for r in sres if r is not None and r[2]]
+        rej = rej[:: max(1, len(rej) // 3000)]
+        py = pmap(_pyp, rej)
+        md = run_model([parse_req(v, "f.c") for v in rej])
+        for v, a, b in zip(rej, py, md):
+            if a != b and not (a == "FUEL" or b == "FUEL"):
+                ctx.violation("ParseError of the real parser %r differs from the Lean model's %r on %r" % (a[:90], b[:90], v[:120]), {"kind": "synloc-model", "text": v})
+        ctx.count(len(rej), nontrivial_n=len(rej))
     # model agreement on every coordinate (this is what carries the theorems to the code)
     if ctx.model_available and variants:
         sample = variants[:: max(1, len(variants) // 4000)]
